@@ -46,6 +46,8 @@ pub struct Enc {
     pub size_mismatch: Vec<(&'static str, usize, usize)>,
     pub depth: usize,
     pub max_depth: usize,
+    /// a VecDeque inside the value has a wrapped ring buffer (`as_slices().1` non-empty)
+    pub wrapped_deque: bool,
 }
 
 impl Enc {
@@ -391,7 +393,100 @@ macro_rules! tv_seq {
     };
 }
 tv_seq!(Vec, "Vec", push);
-tv_seq!(VecDeque, "VecDeque", push_back);
+
+/// VecDeque: the value depends only on the element sequence, but the ring buffer's layout depends on
+/// the history of operations that built it; generate every layout a user can produce (contiguous,
+/// wrapped by push_front, wrapped by FIFO use at capacity, rotated, drained at the front).
+impl<T: Tv> Tv for VecDeque<T> {
+    const KIND: &'static str = "VecDeque";
+    fn tname() -> String {
+        format!("VecDeque<{}>", T::tname())
+    }
+    fn gen(g: &mut G) -> Self {
+        let n = g.len();
+        let how = g.u32() % 6;
+        let extra = 1 + (g.u32() % 5) as usize;
+        g.nested(|g| {
+            let mut v = VecDeque::new();
+            match how {
+                0 => {
+                    for _ in 0..n {
+                        v.push_back(T::gen(g));
+                    }
+                },
+                1 => {
+                    for _ in 0..n {
+                        v.push_front(T::gen(g));
+                    }
+                },
+                2 => {
+                    for i in 0..n {
+                        if i % 2 == 0 {
+                            v.push_back(T::gen(g))
+                        } else {
+                            v.push_front(T::gen(g))
+                        }
+                    }
+                },
+                3 => {
+                    // FIFO at capacity: head moves forward, tail wraps around
+                    v = VecDeque::with_capacity(n.max(1));
+                    for _ in 0..n {
+                        v.push_back(T::gen(g));
+                    }
+                    for _ in 0..extra.min(n) {
+                        let x = v.pop_front().unwrap();
+                        v.push_back(x);
+                    }
+                },
+                4 => {
+                    for _ in 0..n {
+                        v.push_back(T::gen(g));
+                    }
+                    if n > 0 {
+                        v.rotate_left(extra % n);
+                        v.push_front(T::gen(g));
+                        v.pop_back();
+                    }
+                },
+                _ => {
+                    for _ in 0..n + extra {
+                        v.push_back(T::gen(g));
+                    }
+                    for _ in 0..extra {
+                        v.pop_front();
+                    }
+                    if n > 1 {
+                        let x = v.pop_back().unwrap();
+                        v.push_front(x);
+                    }
+                },
+            }
+            v
+        })
+    }
+    fn enc(&self, c: Compress, out: &mut Enc) {
+        let st = out.begin();
+        if !self.as_slices().1.is_empty() {
+            out.wrapped_deque = true;
+        }
+        out.len_prefix("VecDeque", self.len(), T::min_size());
+        for i in 0..self.len() {
+            self[i].enc(c, out);
+        }
+        out.end(st, Self::KIND, self.serialized_size(c));
+    }
+    fn min_size() -> usize {
+        8
+    }
+    fn hostile_ok() -> bool {
+        T::min_size() > 0 && T::hostile_ok()
+    }
+    fn len_kinds(out: &mut Vec<&'static str>) {
+        out.push("VecDeque");
+        T::len_kinds(out)
+    }
+}
 tv_seq!(LinkedList, "LinkedList", push_back);
 
 impl<T: Tv + Ord> Tv for BTreeSet<T> {
